@@ -410,6 +410,13 @@ func (p *Parser) parseOperand() (Node, error) {
 			if err != nil {
 				return nil, err
 			}
+		} else if p.tokens[p.tokenIndex].Value == "." && p.tokenIndex+1 < len(p.tokens) &&
+			p.tokens[p.tokenIndex+1].Type == TOKEN_NAME &&
+			!(p.tokenIndex+2 < len(p.tokens) && p.tokens[p.tokenIndex+2].Type == TOKEN_PUNCTUATION && p.tokens[p.tokenIndex+2].Value == "(") {
+			// .name after an index, a filter or a parenthesised operand: rows[0].name
+			nameToken := p.tokens[p.tokenIndex+1]
+			p.tokenIndex += 2
+			expr = NewGetAttrNode(expr, NewLiteralNode(nameToken.Value, nameToken.Line), nameToken.Line)
 		} else {
 			break
 		}
